@@ -549,6 +549,9 @@ func genC11Proto(r *rng, n int) {
 					buf = alt
 				}
 			}
+			if r.chance(12) && len(buf) > 1 { // truncated input: cut anywhere (inside a tag, a value, a nested message)
+				buf = buf[:1+r.intn(len(buf)-1)]
+			}
 			bits := r.intn(2)
 			opts := &pgeneric.Options{DisallowUnknown: bits&1 != 0, UseNativeSkip: r.chance(20)}
 			v := pgeneric.NewRootValue(from, buf)
